@@ -637,11 +637,20 @@ def compare_segments(F, S_src, S_dst, how):
 def edges_of_gfa1(D, lens):
     """-> list of (canonical edge, id, tags, record type, skip?)"""
     out = []
+    inv = {"+": "-", "-": "+"}
+    seen = {}
     for l in D["L"]:
         if skip_link(l, lens):
             out.append((None, l["id"], l["tags"], "L", True))
         else:
-            out.append((canon_edge(*link_edge(l["a"], l["oa"], l["b"], l["ob"], l["cig"], lens)), l["id"], l["tags"], "L", False))
+            ce = canon_edge(*link_edge(l["a"], l["oa"], l["b"], l["ob"], l["cig"], lens))
+            d = (l["a"], l["oa"], l["b"], l["ob"])
+            if seen.get(ce) == (d[2], inv[d[3]], d[0], inv[d[1]]) and seen.get(ce) != d:
+                # the complement of a link already in the document IS that link (Link._process_not_unique):
+                # the library keeps the first spelling and drops this line
+                continue
+            seen.setdefault(ce, d)
+            out.append((ce, l["id"], l["tags"], "L", False))
     for c in D["C"]:
         if c["cig"] == "*" or lens.get(c["a"]) is None or lens.get(c["b"]) is None:
             out.append((None, c["id"], c["tags"], "C", True))
